@@ -935,3 +935,10 @@ def _site(e: ast.AST) -> Tuple[int, int]:
 
 def unphi_terms(t: Term) -> List[Term]:
     return list(t[1]) if t[0] == "phi" else [t]
+
+
+def walk_all(t: Any):
+    """every sub-tuple of t that is a term (first element a str tag)."""
+    for s in subterms(t):
+        if isinstance(s, tuple) and s and isinstance(s[0], str):
+            yield s
